@@ -75,6 +75,69 @@ def tv(v, salt):
     return int(v)
 
 
+# ---- typed cases: every number carries its Python type: "i:<int>", "b:<0|1>", "q:<p/q>", "f:<float hex|nan|inf|-inf>"
+def tdec(tok):
+    if tok == "none":
+        return None
+    k, v = tok.split(":", 1)
+    if k == "i":
+        return int(v)
+    if k == "b":
+        return bool(int(v))
+    if k == "q":
+        return F(v)
+    return dec(v)
+
+
+def ttok(x):
+    if x is None:
+        return "none"
+    if isinstance(x, bool):
+        return "b:%d" % x
+    if isinstance(x, int):
+        return "i:%d" % x
+    if isinstance(x, F):
+        return "q:%d/%d" % (x.numerator, x.denominator)
+    return "f:" + enc(x)
+
+
+def tdrv(tok):
+    """token for the driver: kind (bool is an int) + exact value"""
+    if tok == "none":
+        return "none"
+    k = tok[0]
+    return ("i" if k == "b" else k) + ":" + q(tdec(tok))
+
+
+def run_typed(c):
+    from ioflo.base import storing
+    from ioflo.trim.interior.plain import controlling
+    n = next(_ctr)
+    if n % 512 == 0:
+        storing.Store.Clear()
+    store = storing.Store(name="c46t%d" % n)
+    ctl = controlling.ControllerPid(name="c46pid", store=store)
+    ctl._prepio(group="ctl.pid", output="goal.out", input="state.in", rate="state.rate", rsp="goal.sp",
+                parms={k: (bool(v) if k == "calcRate" else tdec(v)) for k, v in c["parm"].items()})
+    out = []
+    for op in c["ops"]:
+        try:
+            if op[0] == "upd":
+                store.stamp, ctl.input.value, ctl.rate.value, ctl.rsp.value = (tdec(x) for x in op[1:5])
+                ctl.action()
+            else:
+                ctl.restart()
+            out.append(" ".join(q(v) for v in [ctl.lapse, ctl.elapsed.value, ctl.prsp.value, ctl.e.value,
+                                               ctl.er.value, ctl.es.value, ctl.output.value]))
+        except core.HarnessTimeout:
+            raise
+        except ZeroDivisionError:
+            out.append("ERR ZeroDivisionError")
+        except Exception as ex:
+            out.append("ERR other:" + type(ex).__name__)
+    return out
+
+
 class Rig:
     """a real ControllerPid on a real Store"""
 
@@ -159,7 +222,8 @@ class CHECK(core.Check):
             "a history of 1..30 operations: action() at a given store stamp (increasing by dyadic or decimal steps, "
             "sometimes repeated/backwards/None) with input / rate / set-point values (about a third of the cases 'mixed': "
             "integral stamps, signals, gains and limits below 2**20 are handed over as int or bool instead of float; "
-            "results compared as exact rationals) (random walks, jumps, jitter below "
+            "results compared as exact rationals; a quarter of the cases 'typed': ints, bools, Fractions (thirds, tenths) "
+            "and floats mixed freely in stamps, signals, gains, wrap and limits, run against the typed model) (random walks, jumps, jitter below "
             "drsp, occasionally nan / +-inf), restart(), and changes of the gains. Small exhaustive block: all "
             "histories of length 2 (quick) / 3 (thorough) over a 3-value input/set-point alphabet for 4 parm sets. non-trivial = at least one "
             "action() with positive lapse was evaluated; distinct by full case content")
@@ -172,6 +236,9 @@ class CHECK(core.Check):
     PARTIAL = ["C46_limits_always_partial: 'always within limits' from creation needs 0 to lie within both limit ranges "
                "(shares are created with 0.0 and restart() writes 0.0); otherwise it holds from the first evaluated "
                "action() on (C46_limits_after_evaluation). Known finding D46a, region Ioflo.Pid.zeroOutside",
+               "typed model (Model/PidTyped.lean: int/bool, Fraction exact, float binary64, int/int true division) is tied on "
+               "'typed' cases and has C46_typed_within_limits, C46_typed_limits_always_partial, C46_typed_error_exact; the "
+               "set-point and never-raises theorems are not repeated for it",
                "C46_error_is_wrap2 is about exact arithmetic; with binary64 rounding the error is the rounded analogue "
                "(see C43 / D43a); blend0 and the PID sum are covered for every arithmetic but only through the clamp"]
     TECHNIQUE = ("Lean 4 theorems generic over the rounding arithmetic (case analysis on an order with NaN; induction over "
@@ -278,8 +345,52 @@ class CHECK(core.Check):
             ops.append(["upd", enc(stamp), enc(xi), enc(rate), enc(spi)])
         return ops
 
+    def _tval(self, rng, scale=20):
+        m = rng.randrange(8)
+        if m == 0:
+            return rng.randrange(-scale, scale + 1)
+        if m in (1, 2):
+            return F(rng.randrange(-scale * 6, scale * 6 + 1), rng.choice([1, 2, 3, 7, 10, 360]))
+        if m == 3:
+            return rng.random() < 0.5
+        if m == 4:
+            return float(rng.randrange(-scale, scale + 1))
+        if m == 5:
+            return 0
+        return rng.uniform(-scale, scale)
+
+    def _gen_typed(self, rng):
+        """ints, bools, Fractions (also thirds, tenths) and floats mixed freely"""
+        def lim(scale):
+            a, b = sorted([self._tval(rng, scale), self._tval(rng, scale)])
+            if rng.random() < 0.75:
+                a, b = -abs(a), abs(b)
+            return a, b
+        esmin, esmax = lim(20)
+        ovmin, ovmax = lim(50)
+        parm = dict(wrap=rng.choice([0, 0, 0.0, F(0), False, 180, 180.0, F(360), F(1, 3), -180]),
+                    drsp=rng.choice([0.01, F(1, 100), 0, 1, True]), calcRate=rng.random() < 0.6,
+                    ger=self._tval(rng, 3), gff=self._tval(rng, 30), gpe=self._tval(rng, 5), gde=self._tval(rng, 3),
+                    gie=self._tval(rng, 3), esmax=esmax, esmin=esmin, ovmax=ovmax, ovmin=ovmin)
+        ops = []
+        t = rng.choice([0, 0.0, F(1, 2), None])
+        x, sp = self._tval(rng, 100), self._tval(rng, 100)
+        for _ in range(rng.choice([1, 2, 3, 5, 8, 12])):
+            if rng.random() < 0.05:
+                ops.append(["restart"])
+                continue
+            t = rng.choice([0, 1.5]) if t is None else t + rng.choice([1, F(1, 2), 0.5, F(1, 3), 0.1, 2, 0, True])
+            x = x + rng.choice([0, 1, F(1, 4), 0.25, F(1, 3), -2, F(-1, 10)])
+            if rng.random() < 0.3:
+                sp = self._tval(rng, 100)
+            ops.append(["upd", ttok(t), ttok(x), ttok(self._tval(rng, 3)), ttok(sp)])
+        return {"kind": "typed", "parm": {k: (v if k == "calcRate" else ttok(v)) for k, v in parm.items()}, "ops": ops}
+
     def generate(self, rng, n, tier):
         for _ in range(n):
+            if rng.random() < 0.25:
+                yield self._gen_typed(rng)
+                continue
             sp = 0.05 if rng.random() < 0.35 else 0.0          # non-finite values only in about a third of the cases
             parm = self._parm(rng, sp)
             c = {"parm": parm, "ops": self._history(rng, parm, rng.choice([1, 2, 3, 5, 8, 12, 20, 30]), sp)}
@@ -337,6 +448,8 @@ class CHECK(core.Check):
 
     # ------------------------------------------------------------------ implementation / model
     def impl(self, c):
+        if c.get("kind") == "typed":
+            return run_typed(c)
         return run_ops(Rig(c["parm"], c.get("num")), c["parm"], c["ops"])
 
     @staticmethod
@@ -347,6 +460,14 @@ class CHECK(core.Check):
         return "parm " + " ".join(vals)
 
     def requests(self, c):
+        if c.get("kind") == "typed":
+            p = c["parm"]
+            vals = {k: (p[k] if k == "calcRate" else enc(float(tdec(p[k])))) for k in PKEYS}
+            r = ["reset", self._parmline(vals), "region", "treset",
+                 "tparm " + " ".join(("1" if p[k] else "0") if k == "calcRate" else tdrv(p[k]) for k in PKEYS)]
+            for op in c["ops"]:
+                r.append("tupd " + " ".join(tdrv(x) for x in op[1:5]) if op[0] == "upd" else "trestart")
+            return r
         r = ["reset", self._parmline(c["parm"]), "region"]
         for op in c["ops"]:
             if op[0] == "upd":
@@ -360,6 +481,8 @@ class CHECK(core.Check):
     def model_post(self, c, replies):
         r = list(replies)
         self._region[core.case_key(c)] = (r[2] == "1")
+        if c.get("kind") == "typed":
+            return r[5:]
         return r[3:]
 
     # ------------------------------------------------------------------ property oracle
@@ -371,7 +494,42 @@ class CHECK(core.Check):
         except Exception as ex:
             return "implementation output does not have the expected form (%s: %s): %s" % (type(ex).__name__, ex, out[:3])
 
+    def _typed_oracle(self, c, out):
+        """limits on the shares after every operation; exactness of the error when no wrapping is configured"""
+        P = {k: (v if k == "calcRate" else tdec(v)) for k, v in c["parm"].items()}
+        if len(out) != len(c["ops"]):
+            return "wrong number of results"
+        prev = None
+        for k, (op, line) in enumerate(zip(c["ops"], out)):
+            if line.startswith("ERR"):
+                return "operation %d raised %s" % (k, line)
+            lapse, elapsed, prsp, e, er, es, o = [unq(x) for x in line.split()]
+            if not (P["ovmin"] <= o <= P["ovmax"]):
+                return "after operation %d (%s) output %s is outside [ovmin, ovmax] = [%s, %s]" % (k, op[0], o, P["ovmin"], P["ovmax"])
+            if not (P["esmin"] <= es <= P["esmax"]):
+                return "after operation %d (%s) errorSum %s is outside [esmin, esmax] = [%s, %s]" % (k, op[0], es, P["esmin"], P["esmax"])
+            if op[0] == "upd" and prev is not None and lapse > 0 and P["wrap"] == 0:
+                i, sp = tdec(op[2]), tdec(op[4])
+                def diffs(a, b, b_type_known):
+                    w = []
+                    exact = all(isinstance(v, (int, F)) for v in (a, b))
+                    if exact:
+                        w.append(F(a) - F(b))
+                    if (not exact or not b_type_known) and all(math.isfinite(float(v)) for v in (a, b)):
+                        w.append(F(float(a) - float(b)))      # a float operand: float(a) - float(b)
+                    return w
+                # no wrapping: the error is input - set point (the new one or the remembered one, whose Python type
+                # is not visible in the share value) as exact as Python computes it: Fraction / int stay exact
+                want = diffs(i, sp, True) + diffs(i, prev[2], False)
+                finite = all(not isinstance(v, float) or math.isfinite(v) for v in (i, sp, prev[2]))
+                if finite and e == e and e not in want:
+                    return "operation %d: wrap is 0 but error %s is none of input - set point = %s (exactly)" % (k, e, [str(w) for w in want])
+            prev = (lapse, elapsed, prsp, e, er, es, o)
+        return None
+
     def _oracle(self, c, out):
+        if c.get("kind") == "typed":
+            return self._typed_oracle(c, out)
         parm = c["parm"]
         P = Rig._parms(parm)
         if len(out) != len(c["ops"]):
@@ -468,12 +626,15 @@ class CHECK(core.Check):
             return False
         key = core.case_key(c)
         if key not in self._region:
-            r = core.Driver(self.ENGINE).run(["reset", self._parmline(c["parm"]), "region"])
+            r = core.Driver(self.ENGINE).run(self.requests(c)[:3])
             self._region[key] = (r[2] == "1")
         return self._region[key]
 
     @staticmethod
     def _py_region(parm):
+        if any(isinstance(v, str) and v[1:2] == ":" for v in parm.values()):
+            P = {k: (v if k == "calcRate" else tdec(v)) for k, v in parm.items()}
+            return not (P["esmin"] <= 0 <= P["esmax"] and P["ovmin"] <= 0 <= P["ovmax"])
         P = Rig._parms(parm)
         return not (P["esmin"] <= 0.0 <= P["esmax"] and P["ovmin"] <= 0.0 <= P["ovmax"])
 
@@ -486,6 +647,9 @@ class CHECK(core.Check):
         return False
 
     def bucket(self, c, out):
+        if c.get("kind") == "typed":
+            kinds = "".join(sorted(set(x[0] for op in c["ops"] if op[0] == "upd" for x in op[1:5] if x != "none")))
+            return "typed %s %s" % (kinds, "zero-outside-limits" if self._py_region(c["parm"]) else "zero-inside-limits")
         txt = " ".join(" ".join(map(str, op)) for op in c["ops"]) + " ".join(str(v) for v in c["parm"].values())
         nf = "nonfinite" if ("nan" in txt or "inf" in txt) else "finite"
         n = len(c["ops"])
@@ -493,6 +657,17 @@ class CHECK(core.Check):
         return "%s %s %s" % (nf, ln, "zero-outside-limits" if self._py_region(c["parm"]) else "zero-inside-limits")
 
     def shrink_candidates(self, c):
+        if c.get("kind") == "typed":
+            ops = c["ops"]
+            for i in range(len(ops) - 1, -1, -1):
+                yield dict(c, ops=ops[:i] + ops[i + 1:])
+            for i, op in enumerate(ops):
+                if op[0] == "upd":
+                    for j in (2, 3, 4):
+                        for nv in ("i:0", "q:1/3", "f:" + enc(1.0)):
+                            if nv != op[j]:
+                                yield dict(c, ops=ops[:i] + [op[:j] + [nv] + op[j + 1:]] + ops[i + 1:])
+            return
         inside = self._py_region(c["parm"])
         ops = c["ops"]
         for i in range(len(ops) - 1, -1, -1):
